@@ -106,12 +106,16 @@ pub fn Suspense(props: SuspenseProps) -> View {
                     let (tx, rx) = futures::channel::oneshot::channel();
                     let mut tx = Some(tx);
                     create_effect(move || {
-                        if !suspense_scope.sent.get() && suspense_scope.parent.as_ref().map_or(true, |parent| parent.get().sent.get()) {
-                            suspense_scope.sent.set(true);
-                            tx.take().unwrap().send(()).unwrap();
+                        if suspense_scope.parent.as_ref().map_or(true, |parent| parent.get().sent.get()) {
+                            if let Some(tx) = tx.take() {
+                                tx.send(()).unwrap();
+                            }
                         }
                     });
                     rx.await.unwrap();
+                    // Only mark this scope as sent once its fragment is actually being yielded.
+                    // Otherwise a nested scope could be woken up (and streamed) before this one.
+                    suspense_scope.sent.set(true);
 
                     SuspenseFragment::new(key, view! { Show(when=true) { (view) } })
                 }.boxed_local());
